@@ -121,6 +121,8 @@ pub struct Ctl {
     pub faults_hit: u32,
     /// EIO / ENOSPC injections (short writes and EINTR are benign and not counted here).
     pub hard_faults_hit: u32,
+    /// The harness thread that started the trace.
+    pub main_tid: i32,
 }
 
 impl Ctl {
@@ -238,6 +240,7 @@ pub fn begin(dir: &str) {
         fault_counts: [0; 3],
         faults_hit: 0,
         hard_faults_hit: 0,
+        main_tid: gettid(),
     }));
     ACTIVE.store(true, Ordering::SeqCst);
 }
